@@ -233,11 +233,56 @@ def record_hists(ctx, n, seeds=None, race=False):
     return rc, out, rows, path
 
 
-def validate_hists(ctx, rows, path):
-    r = ctx.tlc("TraceStatsConc", "TraceStatsConc.cfg", workers=4, extra_files=[(path, "hist.ndjson")],
+def hist_rows(rows):
+    """Rows of the concurrent driver -> (complete histories, histories that did not finish)."""
+    return [r for r in rows if "ops" in r], [r for r in rows if r.get("kind") == "hang"]
+
+
+def validate_hists(ctx, rows, path=None):
+    """TLC on the complete histories among rows; returns those without a linearisation."""
+    hists, _ = hist_rows(rows)
+    if not hists:
+        return []
+    for i, h in enumerate(hists):
+        h["h"] = i + 1          # TraceStatsConc addresses a history by its line number
+    hp = ctx.path("c09_hist_tlc_%d.ndjson" % (int(time.time() * 1000) % 10 ** 9))
+    vlib.write_ndjson(hp, hists)
+    r = ctx.tlc("TraceStatsConc", "TraceStatsConc.cfg", workers=4, extra_files=[(hp, "hist.ndjson")],
                 timeout=1200, heap="4g")
     acc = {v["h"] for v in r["vectors"]}
-    return [h for h in rows if h["h"] not in acc]
+    return [h for h in hists if h["h"] not in acc]
+
+
+HANGS = {"seen": 0, "reproduced": 0, "flaky": 0}
+
+
+def hang_text(h):
+    frames = re.findall(r"internal/stats\.\(\*StatsCtx\)\.(\w+)|bbolt\.\(\*(?:DB|Tx)\)\.(\w+)", h.get("dump", ""))
+    names = []
+    for a, b in frames:
+        n = a or ("bbolt." + b)
+        if n not in names:
+            names.append(n)
+    return "goroutines blocked in " + ", ".join(names[:10]) if names else "no goroutine of the package in the dump"
+
+
+def reproduce_hangs(ctx, hangs, race):
+    """A history that did not terminate is run again alone, in a fresh test process (the same seed up
+    to 30 times, stopping at the first one that hangs); hangs again => reproduced disagreement."""
+    for h in hangs:
+        HANGS["seen"] += 1
+        rc, out, rows2, _ = record_hists(ctx, 0, seeds=[h["seed"]] * 30, race=race)
+        _, hangs2 = hist_rows(rows2)
+        if hangs2:
+            HANGS["reproduced"] += 1
+            rec = {"kind": "hang", "seed": h["seed"], "race": race, "watchdog_s": h.get("watchdog_s"),
+                   "dump": hangs2[0].get("dump", "")[:8000], "first_dump": h.get("dump", "")[:3000]}
+            ctx.disagreement(classify(rec), rec, "concurrent history %d does not terminate: Update / flush / GET /control/stats "
+                             "still not returned after %s s, again when re-run alone (%s)" % (
+                                 h["seed"], h.get("watchdog_s"), hang_text(hangs2[0])))
+        else:
+            HANGS["flaky"] += 1
+            ctx.log("history %d did not terminate once but did in 30 re-runs alone: counted as flaky, no verdict" % h["seed"])
 
 
 def concurrent_pairs(h):
@@ -279,6 +324,7 @@ def schedules(ctx, n, race):
     Returns (histories, rejected-and-reproduced, concurrent pairs)."""
     rc, out, rows, path = record_hists(ctx, n, race=race)
     tag = "-race " if race else ""
+    hists, hangs = hist_rows(rows)
     if race:
         reps = race_reports(out)
         if reps:
@@ -292,16 +338,19 @@ def schedules(ctx, n, race):
                                      "data race reported by the race detector while Update / flush / GET /control/stats run concurrently: " + key)
             if not hit:
                 raise vlib.Inconclusive("race report not reproduced on a second run:\n" + "\n".join(reps))
-            return rows, [], 0
-    if rc != 0 or not rows:
+            return hists, [], 0
+    if rc == 0 and hangs:
+        reproduce_hangs(ctx, hangs, race)
+    if rc != 0 or not (hists or hangs):
         if crashed(out):
             rc2, out2, _, _ = record_hists(ctx, n, race=race)
             if rc2 != 0 and crashed(out2):
                 ctx.disagreement(classify({"kind": "panic"}), {"kind": "panic", "race": race, "n": n, "output": out[-4000:]},
                                  "panic / fatal runtime error while Update / flush / GET /control/stats run concurrently")
-                return rows, [], 0
+                return hists, [], 0
         raise vlib.Inconclusive("C09 %sconcurrent driver did not complete:\n%s" % (tag, out[-3000:]))
-    rej = validate_hists(ctx, rows, path)
+    rows = hists
+    rej = validate_hists(ctx, rows)
     reproduced = []
     if rej:
         # Isolation: the same history seeds again, each many times, nothing else running.
@@ -311,7 +360,7 @@ def schedules(ctx, n, race):
         rc, out, rows2, path2 = record_hists(ctx, 0, seeds=seeds, race=race)
         if rc != 0 or not rows2:
             raise vlib.Inconclusive("C09 concurrent driver (isolation) did not complete:\n" + out[-3000:])
-        rej2 = validate_hists(ctx, rows2, path2)
+        rej2 = validate_hists(ctx, rows2)
         again = {h["seed"] for h in rej2}
         for h in rej:
             if h["seed"] in again:
@@ -415,9 +464,15 @@ def run(ctx):
         raise vlib.Inconclusive("vacuous: no daily reply with data in the recorded traces")
 
     # Schedules.
+    HANGS.update(seen=0, reproduced=0, flaky=0)
     nh, nhr = (150, 60) if ctx.quick else (1500, 500)
     hrows, hbad, pairs = schedules(ctx, nh, race=False)
-    rrows, rbad, rpairs = schedules(ctx, nhr, race=True)
+    if HANGS["reproduced"]:
+        # The code under test deadlocks reproducibly: the verdict is settled, the -race leg would
+        # only wait for watchdogs.
+        rrows, rbad, rpairs = [], [], 0
+    else:
+        rrows, rbad, rpairs = schedules(ctx, nhr, race=True)
     if hrows and rrows and pairs + rpairs == 0:
         raise vlib.Inconclusive("vacuous: no two operations overlapped in any recorded history")
 
@@ -447,6 +502,7 @@ def run(ctx):
         "trace_lines_rejected": len(bad),
         "histories": len(hrows), "histories_race": len(rrows), "histories_rejected": len(hbad) + len(rbad),
         "concurrent_pairs": pairs + rpairs,
+        "histories_not_terminating": HANGS["reproduced"], "histories_hang_flaky": HANGS["flaky"],
         "exhaustive": exhaustive, "samples": samples,
     }
     return ctx.finish("model_checking", cov, assumptions=[
@@ -483,10 +539,16 @@ def replay(ctx, path):
         rc, out, rows, hpath = record_hists(ctx, 0, seeds=[rec["hist"]["seed"]] * 30, race=rec.get("race", False))
         if rc != 0 or not rows:
             raise vlib.Inconclusive("concurrent driver did not complete:\n" + out[-2000:])
-        rej = validate_hists(ctx, rows, hpath)
+        rej = validate_hists(ctx, rows)
         print(json.dumps({"history_seed": rec["hist"]["seed"], "runs": len(rows), "rejected": len(rej),
                           "observed": rej[0]["ops"] if rej else "linearisable"}, indent=1))
         return 1 if rej else 0
+    if kind == "hang":
+        rc, out, rows, _ = record_hists(ctx, 0, seeds=[rec["seed"]] * 30, race=rec.get("race", False))
+        _, hangs = hist_rows(rows)
+        print(json.dumps({"history_seed": rec["seed"], "expected": "every operation returns",
+                          "observed": hang_text(hangs[0]) if hangs else "terminated in 30 runs"}, indent=1))
+        return 1 if hangs else 0
     if kind in ("race", "panic"):
         rc, out, rows, _ = record_hists(ctx, rec.get("n", 60), race=True)
         reps = race_reports(out)
